@@ -5,7 +5,7 @@
  * external to this translation unit and are given stub bodies here that ASSERT their
  * preconditions (contracts/http.h: the span is readable, out-parameters writable) and return
  * an arbitrary result allowed by their postconditions (C13: value span inside the block).
- * The real callback runs on: a receive buffer of symbolic capacity with used <= size (the
+ * The real callback runs on: a receive buffer of VF_SRV_CAP bytes with symbolic used <= size (the
  * io_buf invariant), a client in its initial per-request state (no header parsed yet),
  * arbitrary settings / flags / event arguments.  All other external functions (thread pool,
  * syslog, socket address helpers, io_buf_realloc, user callbacks) return arbitrary values.
@@ -13,6 +13,9 @@
 #include "stubs/http.h"
 #include "src/proto/http_server.c"
 #include <errno.h>
+#ifndef VF_SRV_CAP
+#define VF_SRV_CAP 64
+#endif
 
 static const uint8_t *vf_blk;		/* the block the callback must stay inside */
 static size_t vf_blk_used;
@@ -68,12 +71,34 @@ http_hdr_val_get(const uint8_t *http_hdr, size_t hdr_size, const uint8_t *val_na
 	return (0);
 }
 
+/* (ptm, tm) pairs handed to the number parsers: redirected here by --replace-calls */
+size_t
+vf_site_ustr2usize(const uint8_t *str, size_t str_len) {
+	VF_SITE_SPAN("ustr2usize", str, str_len);
+	return (nondet_size_t());
+}
+uint16_t
+vf_site_ustr2u16(const uint8_t *str, size_t str_len) {
+	VF_SITE_SPAN("ustr2u16", str, str_len);
+	return (nondet_uint16_t());
+}
+/* user callbacks: arbitrary results */
+static int
+vf_on_req_rcv(http_srv_cli_p cli, void *udata, http_srv_req_p req, http_srv_resp_p resp) {
+	(void)cli; (void)udata; (void)req; (void)resp;
+	return (nondet_int());
+}
+static void
+vf_on_destroy(http_srv_cli_p cli, void *udata, http_srv_resp_p resp) {
+	(void)cli; (void)udata; (void)resp;
+}
+
 void harness(void) {
-	VF_NONDET(size_t, cap);
+	VF_NONDET_BYTES(rx, VF_SRV_CAP);	/* receive buffer: fixed capacity, symbolic content */
 	VF_NONDET(size_t, used);
-	VF_ASSUME(cap >= 1 && cap <= ((size_t)1 << 30) && used <= cap);
-	uint8_t *data = (uint8_t *)malloc(cap);
-	VF_ASSUME(data != NULL);
+	size_t cap = VF_SRV_CAP;
+	VF_ASSUME(used <= cap);
+	uint8_t *data = rx.b;
 	VF_NONDET_OBJ(io_buf_t, buf);
 	VF_NONDET_OBJ(http_srv_t, srv);
 	VF_NONDET_OBJ(http_srv_bind_t, bnd);
@@ -85,6 +110,9 @@ void harness(void) {
 	bnd.srv = &srv;
 	cli.bnd = &bnd; cli.rcv_buf = &buf; cli.buf = NULL;
 	cli.req.data = NULL; cli.req.hdr = NULL; cli.req.hdr_size = 0;	/* no request parsed yet */
+	VF_ASSUME(srv.bind_count <= 1);					/* the bind-table loop is unwound twice */
+	cli.ccb.on_req_rcv = vf_on_req_rcv;
+	cli.ccb.on_destroy = vf_on_destroy;
 	vf_blk = data; vf_blk_used = used;
 	(void)http_srv_recv_done_cb(cli.tptask, error, &buf, eof, transfered_size, &cli);
 	VF_CANARY("C20 server_callsite harness end");
